@@ -515,8 +515,11 @@ impl Model {
                         )),
                         Some(_) => self.probe("salted_address_repeated_after_rollback"),
                         None => {
-                            // ... and different triples give different addresses
-                            if let Some((k2, _)) = self.salted_seen.iter().find(|(_, a)| **a == addr) {
+                            // ... and different triples give different addresses (two spellings of one creator that
+                            // differ only in the case of their letters are the same creator for a codec that
+                            // canonicalises capitals, as cosmwasm-std's MockApi does: not a different triple)
+                            let same_up_to_case = |x: &(String, String, Vec<u8>), y: &(String, String, Vec<u8>)| x.0 == y.0 && x.2 == y.2 && x.1.to_lowercase() == y.1.to_lowercase();
+                            if let Some((k2, _)) = self.salted_seen.iter().find(|(k, a)| **a == addr && !same_up_to_case(k, key)) {
                                 self.flags.push((
                                     "C11".into(),
                                     "C11.salted_address_collision".into(),
